@@ -9360,32 +9360,52 @@ bool SoPlexBase<R>::loadSettingsFile(const char* filename)
 
    SPX_MSG_INFO1(spxout, spxout << "Loading settings file <" << filename << "> . . .\n");
 
-   // open file
-   spxifstream file(filename);
-
-   if(!file)
-   {
-      SPX_MSG_INFO1(spxout, spxout << "Error opening settings file.\n");
-      return false;
-   }
-
-   // read file
    char line[SPX_SET_MAX_LINE_LEN];
    int lineNumber = 0;
    bool readError = false;
+   line[0] = '\0';
 
-   while(true)
+   // with zlib support the stream reports a file that cannot be opened or decompressed by throwing
+   try
    {
-      lineNumber++;
-      readError = !file.getline(line, sizeof(line));
+      // open file
+      spxifstream file(filename);
 
-      if(readError)
-         break;
+      if(!file)
+      {
+         SPX_MSG_INFO1(spxout, spxout << "Error opening settings file.\n");
+         _statistics->readingTime->stop();
+         return false;
+      }
 
-      (void)_parseSettingsLine(line, lineNumber);
+      // read file
+      while(true)
+      {
+         lineNumber++;
+         readError = !file.getline(line, sizeof(line));
+
+         if(readError)
+            break;
+
+         (void)_parseSettingsLine(line, lineNumber);
+      }
+
+      readError = readError && !file.eof();
    }
 
-   readError = readError && !file.eof();
+#ifdef SOPLEX_WITH_ZLIB
+   catch(const strict_fstream::Exception&)
+   {
+      SPX_MSG_INFO1(spxout, spxout << "Error opening settings file.\n");
+      _statistics->readingTime->stop();
+      return false;
+   }
+
+#endif
+   catch(const std::ios_base::failure&)
+   {
+      readError = true;
+   }
 
    if(readError && strlen(line) == SPX_SET_MAX_LINE_LEN - 1)
    {
